@@ -36,6 +36,15 @@ struct fx_out {
     bool has_type; uint8_t type;
 };
 
+/* a flow definition the sink received */
+#define FX_MAXFD 24
+struct fx_flowdef {
+    int at_nout;                /* number of access units received before it */
+    bool global;                /* f.global present */
+    bool has_headers; size_t hlen; uint8_t *h;  /* f.headers */
+    bool has_encaps; uint8_t encaps;
+};
+
 struct fx {
     struct fix_mem fm;
     struct uprobe probe;
@@ -44,6 +53,9 @@ struct fx {
     struct upipe *framer;
     bool h265;
     uint8_t out_encaps;
+    bool want_global;           /* the sink asks for global headers in the flow definition (as upipe_avformat_sink does) */
+    struct fx_flowdef fd[FX_MAXFD];
+    int nfd; bool fd_truncated;
     /* events */
     int n_ready, n_dead, n_sync_acq, n_sync_lost, n_fatal, n_error, n_new_flow_def, n_other;
     int n_set_flow_def;
@@ -133,6 +145,19 @@ static int fx_sink_control(struct upipe *upipe, int command, va_list args)
         fx->n_set_flow_def++;
         if (!flow_def || !ubase_check(uref_flow_get_def(flow_def, &def)) || ubase_ncmp(def, "block."))
             fx->bad_flow_def = true;
+        else if (fx->nfd == FX_MAXFD) fx->fd_truncated = true;
+        else {
+            struct fx_flowdef *d = &fx->fd[fx->nfd++];
+            memset(d, 0, sizeof(*d));
+            d->at_nout = fx->nout;
+            d->global = ubase_check(uref_flow_get_global(flow_def));
+            const uint8_t *h; size_t hl;
+            if (ubase_check(uref_flow_get_headers(flow_def, &h, &hl))) {
+                d->has_headers = true; d->hlen = hl;
+                d->h = malloc(hl ? hl : 1); memcpy(d->h, h, hl);
+            }
+            d->has_encaps = ubase_check(uref_h26x_flow_get_encaps(flow_def, &d->encaps));
+        }
         return UBASE_ERR_NONE;
     }
     case UPIPE_REGISTER_REQUEST: {
@@ -140,7 +165,7 @@ static int fx_sink_control(struct upipe *upipe, int command, va_list args)
         if (urequest->type == UREQUEST_FLOW_FORMAT) {
             struct uref *ff = uref_dup(urequest->uref);
             if (!ff) return UBASE_ERR_ALLOC;
-            uref_flow_delete_global(ff);
+            if (fx->want_global) uref_flow_set_global(ff); else uref_flow_delete_global(ff);
             uref_h26x_flow_set_encaps(ff, fx->out_encaps);
             return urequest_provide_flow_format(urequest, ff);
         }
@@ -153,12 +178,17 @@ static int fx_sink_control(struct upipe *upipe, int command, va_list args)
     }
 }
 
+/* how the input is announced: encapsulation attribute (in_encaps < 0: absent, the framer infers it from the global
+ * headers), global headers (f.headers; with f.global as upipe_avformat_source sets it), complete access units */
+struct fx_input { int in_encaps; const uint8_t *headers; size_t hlen; bool complete; };
+
 /* returns 0 or a message */
-static const char *fx_open(struct fx *fx, bool h265, uint8_t out_encaps)
+static const char *fx_open_ex(struct fx *fx, bool h265, uint8_t out_encaps, bool want_global, const struct fx_input *in)
 {
     memset(fx, 0, sizeof(*fx));
     fx->h265 = h265;
     fx->out_encaps = out_encaps;
+    fx->want_global = want_global;
     if (fix_mem_init(&fx->fm, 0, 0, 0) != 0) return "fix_mem_init";
     uprobe_init(&fx->probe, fx_catch, NULL);
     memset(&fx->sink_mgr, 0, sizeof(fx->sink_mgr));
@@ -175,11 +205,21 @@ static const char *fx_open(struct fx *fx, bool h265, uint8_t out_encaps)
     if (!ubase_check(upipe_set_output(fx->framer, &fx->sink))) return "upipe_set_output";
     struct uref *flow_def = uref_block_flow_alloc_def(fx->fm.uref_mgr, h265 ? "hevc.pic." : "h264.pic.");
     if (!flow_def) return "flow def alloc";
-    uref_h26x_flow_set_encaps(flow_def, UREF_H26X_ENCAPS_ANNEXB);
+    if (in->in_encaps >= 0) uref_h26x_flow_set_encaps(flow_def, (uint8_t)in->in_encaps);
+    if (in->headers) {
+        if (!ubase_check(uref_flow_set_global(flow_def)) || !ubase_check(uref_flow_set_headers(flow_def, in->headers, in->hlen))) { uref_free(flow_def); return "flow def headers"; }
+    }
+    if (in->complete) uref_flow_set_complete(flow_def);
     int e = upipe_set_flow_def(fx->framer, flow_def);
     uref_free(flow_def);
     if (!ubase_check(e)) return "upipe_set_flow_def refused block.h264.pic. / block.hevc.pic.";
     return NULL;
+}
+
+static const char *fx_open(struct fx *fx, bool h265, uint8_t out_encaps)
+{
+    struct fx_input in = { UREF_H26X_ENCAPS_ANNEXB, NULL, 0, false };
+    return fx_open_ex(fx, h265, out_encaps, false, &in);
 }
 
 /* one input buffer made of nseg segments: seglen[0..nseg-1] sum to n */
@@ -201,6 +241,27 @@ static const char *fx_feed(struct fx *fx, const uint8_t *p, const size_t *seglen
     return NULL;
 }
 
+/* one input buffer holding one access unit: nseg segments, NAL offset attributes h26x.n[0..noff-1] */
+static const char *fx_feed_frame(struct fx *fx, const uint8_t *p, const size_t *seglen, int nseg, const size_t *off, int noff)
+{
+    struct ubuf *ubuf = NULL;
+    size_t pos = 0;
+    for (int i = 0; i < nseg; i++) {
+        struct ubuf *piece = ubuf_block_alloc_from_opaque(fx->fm.block_mgr, p + pos, seglen[i]);
+        if (!piece) { if (ubuf) ubuf_free(ubuf); return "ubuf alloc"; }
+        if (!ubuf) ubuf = piece;
+        else if (!ubase_check(ubuf_block_append(ubuf, piece))) { ubuf_free(piece); ubuf_free(ubuf); return "ubuf append"; }
+        pos += seglen[i];
+    }
+    struct uref *uref = uref_alloc(fx->fm.uref_mgr);
+    if (!uref) { ubuf_free(ubuf); return "uref alloc"; }
+    uref_attach_ubuf(uref, ubuf);
+    for (int i = 0; i < noff; i++)
+        if (!ubase_check(uref_h26x_set_nal_offset(uref, off[i], i))) { uref_free(uref); return "nal offset attribute"; }
+    upipe_input(fx->framer, uref, NULL);
+    return NULL;
+}
+
 /* releases the framer (which flushes the pending access unit) */
 static void fx_release_framer(struct fx *fx)
 {
@@ -212,6 +273,8 @@ static void fx_free_outputs(struct fx *fx)
     for (int i = 0; i < fx->nout; i++) free(fx->out[i].bytes);
     free(fx->out);
     fx->out = NULL; fx->nout = fx->capout = 0;
+    for (int i = 0; i < fx->nfd; i++) free(fx->fd[i].h);
+    fx->nfd = 0;
 }
 
 /* tears down; returns the audit message or NULL */
